@@ -226,7 +226,8 @@ def gen_case_c03(rng):
     if len(longk) >= 2 and rng.random() < 0.25:
         keys = [k for k in keys if k not in longk] + (longk[2:4] if (len(longk) >= 4 and rng.random() < 0.5) else longk[:2])
     if b['kind'] == 'dir' and not is_source(b) and rng.random() < 0.04:
-        keys.append(rng.choice(['data/x.csv', '/abs/path', "('a/b',)"]))     # path-like keys (recorded finding)
+        pk = rng.choice(['data/x.csv', '/abs/path', "('a/b',)"])     # path-like keys (recorded finding)
+        keys += [pk, pk.replace('/', '_')]       # ... and the key a 'flattened' path would collide with
     if b['kind'] == 'dir' and not is_source(b) and not is_json(b) and rng.random() < 0.04:
         keys += [1, 1.0]                                                      # ==-equal keys of different type (recorded finding)
     if b['kind'] == 'dir' and not is_source(b) and rng.random() < 0.04:
